@@ -123,6 +123,31 @@ def c11_matrix(codec="gzip", container="stream", ext=None):
     return {"violates": bool(bad), "detail": bad}
 
 
+def c11_concurrent(ext=".zst"):
+    from flow.record import RecordDescriptor, RecordReader, RecordWriter
+
+    D = RecordDescriptor("c11/rec", [("varint", "n"), ("string", "s")])
+    with tempfile.TemporaryDirectory() as td:
+        paths = [os.path.join(td, f"c{i}.records{ext}") for i in range(2)]
+        try:
+            ws = [RecordWriter(p) for p in paths]
+            for k in range(300):
+                for i, w in enumerate(ws):
+                    w.write(D(n=1000 * i + k, s="v" * 50))
+            for w in ws:
+                w.flush()
+                w.close()
+            rds = [iter(RecordReader(p)) for p in paths]
+            got = [[], []]
+            for k in range(300):
+                for i in range(2):
+                    got[i].append(next(rds[i]).n)
+        except Exception as e:
+            return {"violates": True, "detail": f"two {ext} streams in progress at once: {type(e).__name__}: {e}"[:300]}
+    ok = got == [list(range(300)), list(range(1000, 1300))]
+    return {"violates": not ok, "detail": None if ok else "records of two streams written / read side by side are mixed up or lost"}
+
+
 def c11_adapters():
     from flow.record import RecordWriter
 
@@ -209,6 +234,11 @@ def c11_sweep(seed=0, n=30):
         bad = _refused(data)
         if bad:
             return {"violates": True, "detail": f"non-stream input {label!r} ({data[:30]!r}): {bad}", "witness": {"seed": seed, "junk": label}, "cases": cases}
+    for e_ in (".gz", ".bz2", ".lz4", ".zst"):
+        cases += 1
+        rc = c11_concurrent(e_)
+        if rc["violates"]:
+            return {"violates": True, "detail": rc["detail"], "witness": {"concurrent": e_}, "cases": cases}
     r = c11_adapters()
     if r["violates"]:
         return {"violates": True, "detail": r["detail"], "witness": {"adapters": True}, "cases": cases}
@@ -238,4 +268,4 @@ def c11_model_conformance():
     return {"ok": True, "cases": 4, "violates": False}
 
 
-CALLS = {"c11_matrix": c11_matrix, "c11_adapters": c11_adapters, "c11_refuse": c11_refuse, "c11_sweep": c11_sweep, "c11_model_conformance": c11_model_conformance}
+CALLS = {"c11_concurrent": c11_concurrent, "c11_matrix": c11_matrix, "c11_adapters": c11_adapters, "c11_refuse": c11_refuse, "c11_sweep": c11_sweep, "c11_model_conformance": c11_model_conformance}
